@@ -201,6 +201,8 @@ def run(facts, rep, tier):
     # ---- T9 compound assignment cannot bypass the policy -----------------------------------------------------
     compound_no_bypass(F, rep)
     exponent_classifiers(F, rep)
+    from c01 import compound_tables
+    compound_tables(F, rep, "COMPOUND")
     # ---- T10 runtime trait impl outputs -----------------------------------------------------------------------
     runtime_outputs(F, rep)
     # ---- T11 types_compatible numeric cells -------------------------------------------------------------------
